@@ -636,6 +636,22 @@ func c06Suite(c *core.Collector, seed uint64, batch int, conns, nreq int, wraps 
 			}
 		}(i)
 	}
+	// an upload whose reassembled length is congruent to its completing packet's length modulo 2^16
+	for i := 0; i < 2; i++ {
+		wg.Add(1)
+		go func(i int) {
+			defer wg.Done()
+			viol, incon, n := c06ModularUpload(srv.Addr, batch*1000+880+i, seed)
+			c.Evals(int64(n))
+			c.Count("uploads_of_65536_plus_64_bytes_answered_with_their_own_id", 1)
+			if incon {
+				c.Inconclusive()
+			}
+			for _, v := range viol {
+				c.Violate(v[0], v[1], nil)
+			}
+		}(i)
+	}
 	// tail bursts: request + non-replying messages in one write; the reply must not wait for later traffic
 	for i := 0; i < 2+conns/6; i++ {
 		wg.Add(1)
